@@ -10,10 +10,10 @@
 (***************************************************************************)
 EXTENDS BlockValue, Json, IOUtils
 
-CONSTANTS MaxOps, Vals, ModelKinds, ModelHows, Emit
+CONSTANTS MaxOps, Vals, ModelKinds, ModelHows, ModelParams, Emit
 
-VARIABLES heap, cur, armed, hist, readOK, ub
-vars == <<heap, cur, armed, hist, readOK, ub>>
+VARIABLES heap, cur, armed, hist, readOK, ub, ap
+vars == <<heap, cur, armed, hist, readOK, ub, ap>>      \* ap: the parameters a fresh block with that content would have
 
 Slots == {1, 2, 3}
 
@@ -21,24 +21,34 @@ MCInit == /\ heap = [t \in Slots |-> NewBlock(t = 1)]
           /\ cur = [t \in Slots |-> NoCursor]
           /\ armed = [t \in Slots |-> FALSE]
           /\ hist = <<>> /\ readOK = TRUE /\ ub = FALSE
+          /\ ap = [t \in Slots |-> 0]
 
 DoItem(t, k, v) ==
     /\ heap[t].alive
     /\ heap' = ImplAddItem(heap, t, k, v)
     /\ armed' = [armed EXCEPT ![t] = FALSE]
     /\ hist' = Append(hist, [op |-> "item", t |-> t, k |-> k, v |-> v])
+    /\ UNCHANGED <<cur, readOK, ub, ap>>
+
+(* set_block_parameters() on an empty block *)
+DoSetP(t, p) ==
+    /\ heap[t].alive /\ Counts(heap[t].val) = <<0, 0, 0>> /\ p # heap[t].val.p
+    /\ heap' = ImplSetP(heap, t, p) /\ ap' = [ap EXCEPT ![t] = p]
+    /\ armed' = [armed EXCEPT ![t] = FALSE]
+    /\ hist' = Append(hist, [op |-> "setp", t |-> t, p |-> p])
     /\ UNCHANGED <<cur, readOK, ub>>
 
 DoClear(t) ==
     /\ heap[t].alive
     /\ heap' = ImplClear(heap, t) /\ armed' = [armed EXCEPT ![t] = FALSE]
     /\ hist' = Append(hist, [op |-> "clear", t |-> t])
-    /\ UNCHANGED <<cur, readOK, ub>>
+    /\ UNCHANGED <<cur, readOK, ub, ap>>
 
 DoDestroy(t) ==
     /\ heap[t].alive /\ \E u \in Slots \ {t} : heap[u].alive
     /\ heap' = ImplDestroy(heap, t) /\ armed' = [armed EXCEPT ![t] = FALSE]
     /\ hist' = Append(hist, [op |-> "destroy", t |-> t])
+    /\ ap' = [ap EXCEPT ![t] = 0]
     /\ UNCHANGED <<cur, readOK, ub>>
 
 DoCopy(s, d, how) ==
@@ -49,6 +59,7 @@ DoCopy(s, d, how) ==
     /\ cur' = [cur EXCEPT ![d] = NoCursor]
     /\ armed' = [armed EXCEPT ![d] = TRUE]
     /\ hist' = Append(hist, [op |-> "copy", src |-> s, dst |-> d, how |-> how])
+    /\ ap' = [ap EXCEPT ![d] = ap[s]]
     /\ UNCHANGED <<readOK, ub>>
 
 DoRead(t, k) ==
@@ -58,11 +69,12 @@ DoRead(t, k) ==
        /\ readOK' = (readOK /\ (r.ub \/ AbsReadOK(heap[t].val, cur[t], k, r.end, r.v, r.c)))
        /\ cur' = [cur EXCEPT ![t] = AbsReadNext(@, k, r.end, r.v)]
     /\ hist' = Append(hist, [op |-> "read", t |-> t, k |-> k])
-    /\ UNCHANGED armed
+    /\ UNCHANGED <<armed, ap>>
 
 MCNext == /\ Len(hist) < MaxOps
           /\ \/ \E t \in Slots : \E k \in ModelKinds : \E v \in Vals : DoItem(t, k, v)
              \/ \E t \in Slots : DoClear(t)
+             \/ \E t \in Slots : \E p \in ModelParams : DoSetP(t, p)
              \/ \E s \in Slots : \E d \in Slots : \E how \in ModelHows : DoCopy(s, d, how)
              \/ \E t \in Slots : DoDestroy(t)
              \/ \E t \in Slots : \E k \in ModelKinds : DoRead(t, k)
@@ -73,6 +85,10 @@ C19_ReadsOK == readOK
 (* the impl index cursors agree with the abstract ones on every armed block *)
 C19_Cursors == ub \/ \A t \in Slots : (heap[t].alive /\ armed[t]) =>
                          /\ heap[t].cq = cur[t].rq /\ heap[t].cm = cur[t].rm
+
+(* a block obtained from another one has the parameters (hence fullness, hints, tick rate) of a fresh block with that content *)
+C19_Params == \A t \in Slots : heap[t].alive => /\ heap[t].val.p = ap[t]
+                                                 /\ AbsFull(heap[t].val) = AbsFull([heap[t].val EXCEPT !.p = ap[t]])
 
 HasCopyThenRead == \E i, j \in 1..Len(hist) : i < j /\ hist[i].op = "copy" /\ hist[j].op = "read" /\ hist[j].t = hist[i].dst
 EmitDone == (Emit /\ Len(hist) = MaxOps /\ HasCopyThenRead) => PrintT(<<"HIST", ToJson([ops |-> hist])>>)
